@@ -149,8 +149,10 @@ theorem bal_case (fuel : Nat) (ih : Bal fuel) :
   cases items with
   | nil => simp [execCase]
   | cons it rest =>
-    obtain ⟨m, body, k⟩ := it
+    obtain ⟨m, e, body, k⟩ := it
     simp only [execCase]
+    split
+    · simp
     split
     · simp [ih.case_]
     · have h1 := ih.list s body
